@@ -65,6 +65,7 @@ theorem E0_ok : EnvOK E0 where
     · cases h
   adaptProvides := by intro v c r h; simp [E0] at h
   fnRange := by intro f v w _; rfl
+  asarrayTyped := by intro v t d s h; simp [E0] at h
 
 example : (TraitType.either [.rangeF (some (.fin 0)) (some (.fin 8)) true false,
     .tuple [.int, .union [.str, .noneTrait]]] true).soundClean = true := by decide
